@@ -116,7 +116,20 @@ where
     debug_assert!(xs.len() == ys.len(), "number of X and Y coordinates must be the same");
 
     let roots = poly_from_roots(xs);
-    let numerators: Vec<Vec<E>> = xs.iter().map(|&x| syn_div(&roots, 1, x)).collect();
+    let numerators: Vec<Vec<E>> = xs
+        .iter()
+        .map(|&x| {
+            if x == E::ZERO {
+                // syn_div() does not accept a zero constant, but dividing by (x - 0) simply
+                // drops the (zero) constant term and shifts the remaining coefficients down
+                let mut numerator = roots[1..].to_vec();
+                numerator.push(E::ZERO);
+                numerator
+            } else {
+                syn_div(&roots, 1, x)
+            }
+        })
+        .collect();
 
     let denominators: Vec<E> = numerators.iter().zip(xs).map(|(e, &x)| eval(e, x)).collect();
     let denominators = batch_inversion(&denominators);
